@@ -1115,6 +1115,8 @@ class Key(object):
                     self.compressed = True
                     self._x = int(self.x_hex, 16)
                     self.public_compressed_hex = pub_key
+            if strict:
+                self._check_public_key()
             self.public_compressed_byte = bytes.fromhex(self.public_compressed_hex)
             if self._public_uncompressed_hex:
                 self._public_uncompressed_byte = bytes.fromhex(self._public_uncompressed_hex)
@@ -1122,6 +1124,8 @@ class Key(object):
 
         elif self.is_private and self.key_format == 'decimal':
             self.secret = int(import_key)
+            if not 0 < self.secret < secp256k1_n:
+                raise BKeyError("Private key must be a number between 1 and the secp256k1 group order")
             self.private_hex = change_base(self.secret, 10, 16, 64)
             self.private_byte = bytes.fromhex(self.private_hex)
         elif self.is_private:
@@ -1176,6 +1180,9 @@ class Key(object):
             self.private_hex = key_hex
             self.private_byte = key_byte
             self.secret = int(key_hex, 16)
+            # A 64 byte key (private key and chain) is reduced by the curve arithmetic, see unittests
+            if len(key_byte) <= 32 and not 0 < self.secret < secp256k1_n:
+                raise BKeyError("Private key must be a number between 1 and the secp256k1 group order")
         else:
             raise BKeyError("Cannot import key. Public key format unknown")
 
@@ -1206,6 +1213,24 @@ class Key(object):
         self._address_obj = None
         self._wif = None
         self._wif_prefix = None
+
+    def _check_public_key(self):
+        """
+        Check if imported public key is a valid encoding of a point on the secp256k1 curve. Raises BKeyError if not.
+        """
+        prefix = self.public_hex[:2]
+        if not ((len(self.public_hex) == 130 and prefix == '04') or
+                (len(self.public_hex) == 66 and prefix in ['02', '03'])):
+            raise BKeyError("Public key must be 33 bytes with prefix 02 or 03, or 65 bytes with prefix 04")
+        x = int(self.x_hex, 16)
+        ys = (pow(x, 3, secp256k1_p) + 7) % secp256k1_p
+        if self.y_hex:
+            y = int(self.y_hex, 16)
+            on_curve = x < secp256k1_p and y < secp256k1_p and (y * y - ys) % secp256k1_p == 0
+        else:
+            on_curve = x < secp256k1_p and pow(mod_sqrt(ys), 2, secp256k1_p) == ys
+        if not on_curve:
+            raise BKeyError("Public key is not a point on the secp256k1 curve")
 
     def __repr__(self):
         return "<Key(public_hex=%s, network=%s)>" % (self.public_hex, self.network.name)
